@@ -518,6 +518,10 @@ pub fn run(thorough: bool) -> Report {
             hists.push(vec![Msg::Open(a.clone()), Msg::Tokens, Msg::OpenOther(b.clone()), Msg::TokensOwn]);
         }
     }
+    // a change notification for a document that was never opened is a document like any other
+    for a in core.iter().step_by(2) {
+        hists.push(vec![Msg::Change(a.clone()), Msg::Tokens, Msg::Change(format!("{}\n{}", a, a)), Msg::Tokens]);
+    }
     // a client that does not wait for answers: changes of two documents and a token request in one go
     for a in core.iter().step_by(4) {
         for b in core.iter().skip(2).step_by(5) {
